@@ -78,6 +78,13 @@ def run(tier):
     rep.rule('R09.4', 'closure: every abstract state (mapper known?, set of STALE bytes) reachable after the Reset is explored', floor=4)
     check_state_for_iface(rep, prog, 'R09.1')
 
+    # the session table (the part of "what the responder remembers" that lives outside the interface record): the ports empty it
+    # with session_table_clear when a Reset arrives; afterwards it must equal a freshly created table - no slot valid (whatever
+    # holes expiry and removal left), count 0, all-complete true
+    rep.rule('R09.7', 'the session table after session_table_clear equals a freshly created one (every slot invalid - not only the first `count` -, count 0, all-complete true)', floor=6)
+    from .c16 import decide as table_decide
+    from .c07 import RuleView
+    table_decide(RuleView(rep, {'R16.clear': 'R09.7', 'R16.create': 'R09.7'}), prog)
     info = recovery(rep, prog, 'R09')
     rep.analysed.update(info)
     return finish(rep, 'proof',
